@@ -110,3 +110,382 @@ Ltac eqs :=
           | H : context [Nat.eqb ?a ?b] |- _ => destruct (Nat.eqb a b) eqn:?
           end; bools); subst.
 
+Section Preservation.
+Variables (s : state) (l : label) (s' : state).
+Hypothesis I : Inv s.
+Hypothesis HS : step s l = Some s'.
+
+Ltac start := revert HS; intros H0; destruct l; step_cases H0; expand; bools.
+Ltac runc := try (destruct (run s); simpl in *; discriminate).
+
+Lemma pres_ownidle : run_idle (run s') = true -> get (own s') (thr s') = PIdle.
+Proof.
+  pose proof (I_ownidle _ I) as Hoi. start.
+  all: try (simpl; discriminate).
+  all: try (intros; rewrite ?get_set; apply Hoi; rewrite ?Heqr; reflexivity).
+  all: intros Hr; rewrite ?get_set; try rewrite Heqr in *; simpl in Hr; try discriminate;
+       try (specialize (Hoi Hr)); eqs; try congruence; auto; runc.
+Qed.
+
+Lemma pres_uown : forall t e, unreg_of e (get t (thr s')) = true -> t = own s'.
+Proof.
+  pose proof (I_uown _ I) as Hu. start.
+  all: intros tq eq; rewrite ?get_set; eqs; simpl; try discriminate; try congruence; eauto.
+Qed.
+
+Lemma pres_blocked : run s' = RBlocked -> local s' = false.
+Proof.
+  pose proof (I_blocked _ I) as Hb. pose proof (I_ownidle _ I) as Hoi. start.
+  all: try (intros; discriminate). all: try (intros; congruence). all: auto.
+  intros Hr. rewrite Hr in Hoi. specialize (Hoi eq_refl). subst. congruence.
+Qed.
+
+Lemma pres_run_lock : run_locked (run s') = true -> lock s' = Some (own s').
+Proof.
+  pose proof (I_run_lock _ I) as Hrl. pose proof (I_ownidle _ I) as Hoi. start.
+  all: try (intros; discriminate). all: try (simpl; intros; reflexivity).
+  all: try (rewrite ?Heqr in *; simpl in *; intros; congruence).
+  all: try exact Hrl.
+  all: intros Hr; specialize (Hrl Hr); try congruence.
+  all: assert (Hri : run_idle (run s) = true) by (destruct (run s); simpl in *; congruence);
+       specialize (Hoi Hri); eqs; congruence.
+Qed.
+
+Lemma pres_lock_rev : forall t, locked_ppc (get t (thr s')) = true -> lock s' = Some t.
+Proof.
+  pose proof (I_lock_rev _ I) as Hlr. pose proof (I_lock _ I) as Hl. start.
+  all: intros tq; rewrite ?get_set; eqs; simpl; try discriminate; try reflexivity; auto.
+  all: intros Hq; specialize (Hlr _ Hq); try congruence.
+  all: injection Hlr as Hlr; subst; rewrite ?Heqp in Hq; simpl in Hq; discriminate.
+Qed.
+
+Lemma pres_lock : forall t, lock s' = Some t ->
+  locked_ppc (get t (thr s')) = true \/ (t = own s' /\ get t (thr s') = PIdle /\ run_locked (run s') = true).
+Proof.
+  pose proof (I_lock _ I) as Hl. pose proof (I_ownidle _ I) as Hoi. start.
+  all: intros tq; rewrite ?get_set; try (intros; discriminate).
+  all: try (intros Hq; injection Hq as Hq; subst; rewrite ?Nat.eqb_refl; simpl; auto; fail).
+  all: intros Hq; specialize (Hl _ Hq); try exact Hl; eqs; simpl; auto.
+  all: destruct Hl as [Hl|[? [? Hl]]];
+       [ rewrite ?H, ?H1, ?Heqp in Hl; simpl in Hl; try discriminate | subst; try congruence; runc ].
+  all: try (left; exact Hl); try (simpl in Hl; discriminate).
+Qed.
+
+Lemma pres_batch : batch_ok s'.
+Proof.
+  pose proof (I_batch _ I) as Hb. unfold batch_ok in *. start.
+  all: rewrite ?Heqr in *; simpl; auto.
+  all: try (apply is_nil_true; assumption).
+  destruct (run s) as [| | | | ? [|] | ? [|] | |]; auto; rewrite Hb; reflexivity.
+Qed.
+
+Lemma pres_ulocked : forall e, get (own s') (thr s') = ULocked e -> ~ In e (pending s') /\ ~ In e (batch s').
+Proof.
+  pose proof (I_ulocked _ I) as Hu. pose proof (I_lock_rev _ I) as Hlr. pose proof (I_ownidle _ I) as Hoi. start.
+  all: intros eq; rewrite ?get_set; eqs; try (intros; discriminate); try congruence; auto.
+  - intros Hq. specialize (Hlr (own s)). rewrite Hq in Hlr. specialize (Hlr eq_refl). discriminate.
+  - intros Hq. injection Hq as Hq. subst. split; apply nIn_rem_self.
+Qed.
+
+Lemma pres_unreg : forall e t, unreg_of e (get (own s') (thr s')) = true -> t <> own s' -> on_ev e (get t (thr s')) = false.
+Proof.
+  pose proof (I_unreg _ I) as Hu. pose proof (I_uown _ I) as Huo. pose proof (I_ownidle _ I) as Hoi. start.
+  all: intros eq tq; rewrite ?get_set; eqs; simpl; try (intros; discriminate); try congruence; auto.
+  all: intros Hq Hn; specialize (Hu eq tq); rewrite ?Heqp, ?H1 in *; simpl in *; eqs; try congruence; auto.
+  apply none_on_get. assumption.
+Qed.
+
+Lemma pres_begun : forall t e, get t (thr s') = PBegun e -> In e (reg s').
+Proof.
+  pose proof (I_begun _ I) as Hb. pose proof (I_unreg _ I) as Hu. start.
+  all: intros tq eq; rewrite ?get_set; eqs; simpl; try (intros; discriminate); try congruence; eauto.
+  1,2: intros Hq; injection Hq as Hq; subst; apply mem_In; assumption.
+  intros Hq. apply In_rem. split; [eauto|].
+  intros ->. specialize (Hu e tq). rewrite Heqp in Hu. simpl in Hu. rewrite Nat.eqb_refl in Hu.
+  rewrite Hq in Hu. simpl in Hu. rewrite Nat.eqb_refl in Hu.
+  assert (tq <> own s) by (intros ->; congruence). specialize (Hu eq_refl H). discriminate.
+Qed.
+
+Lemma pres_sub : forall e, In e (pending s') \/ In e (batch s') -> In e (reg s').
+Proof.
+  pose proof (I_sub _ I) as Hs. pose proof (I_begun _ I) as Hb. pose proof (I_ulocked _ I) as Hu. start.
+  all: intros eq; auto.
+  all: intros Hq; rewrite ?Heql0 in *; try (apply Hs; simpl in *; tauto).
+  - destruct Hq as [Hq|Hq]; [|apply Hs; tauto]. apply in_app_or in Hq. destruct Hq as [Hq|[<-|[]]]; [apply Hs; tauto|eauto].
+  - apply Hs. rewrite !In_rem in Hq. tauto.
+  - subst. apply In_rem. split; [apply Hs; exact Hq|]. intros ->. specialize (Hu _ Heqp). tauto.
+  - right. apply Hs. exact Hq.
+Qed.
+
+Lemma pres_owed : forall e, owed s' e = true -> In e (pending s') \/ In e (batch s').
+Proof.
+  pose proof (I_owed _ I) as Ho. pose proof (I_batch _ I) as Hb. unfold batch_ok in Hb. start.
+  all: intros ev; auto.
+  all: rewrite ?Heqr in Hb; rewrite ?Heql0, ?Hb in *.
+  all: try (unfold upd; cbv beta; match goal with |- context [if Nat.eqb ?a ?x then _ else _] => destruct (Nat.eqb a x) eqn:Ee end; bools; subst);
+       try (intros; discriminate); auto.
+  all: intros Hq; try (specialize (Ho _ Hq)); simpl in *.
+  1,2: destruct Ho as [[Hx|Hx]|[]]; [congruence|auto].
+  - destruct Ho as [Hx|[Hx|Hx]]; [auto|congruence|auto].
+  - apply orb_true_iff in Heqb. rewrite !mem_In in Heqb. exact Heqb.
+  - left. apply in_or_app. right. left. reflexivity.
+  - destruct Ho as [Hx|Hx]; [left; apply in_or_app; auto|auto].
+  - rewrite !In_rem. tauto.
+Qed.
+
+Lemma pres_count : forall e, handler_starts s' e + occ e (pending s') + occ e (batch s') + toh e (run s') + cnt e (thr s')
+                      <= posts_begun s' e.
+Proof.
+  pose proof (I_count _ I) as Hc. start.
+  all: intros ev; specialize (Hc ev); rewrite ?Heqr, ?Heql0 in *.
+  all: try match goal with |- context [cnt ?v (set ?t ?p ?l)] =>
+         pose proof (cnt_set_le v t p l) as Hle; simpl in Hle end.
+  all: unfold upd; cbv beta; simpl in *; rewrite ?occ_app; simpl.
+  all: try lia.
+  all: try (pose proof (cnt_filter_dec ev t (thr s)) as Hd; rewrite Heqp in Hd; simpl in Hd).
+  all: try (pose proof (occ_rem_le ev e (pending s)); pose proof (occ_rem_le ev e (batch s))).
+  all: eqs; try lia; try congruence.
+Qed.
+
+Lemma wake_thr_other : forall th t p, (exists t0, owes (get t0 th) = true) -> owes (get t th) = false ->
+  exists t0, owes (get t0 (set t p th)) = true.
+Proof.
+  intros th t p [t0 Ht0] Hf. exists t0. rewrite get_set_other; [exact Ht0|]. intros ->. congruence.
+Qed.
+
+Lemma wake_thr_self : forall th t p, owes p = true -> exists t0, owes (get t0 (set t p th)) = true.
+Proof. intros. exists t. rewrite get_set_same. assumption. Qed.
+
+Lemma pres_wake : wake_ok s'.
+Proof.
+  pose proof (I_wake _ I) as Hw. unfold wake_ok in *. start.
+  all: rewrite ?Heql0 in *; auto.
+  all: try (right; left; lia).
+  all: try (right; right; right; right; reflexivity).
+  all: try (left; reflexivity).
+  all: try (destruct Hw as [Hw|[Hw|[Hw|[Hw|Hw]]]]; try discriminate Hw; try tauto; try lia;
+            try (right; right; right; left; apply wake_thr_other; [exact Hw | rewrite ?Heqp, ?H1, ?H; reflexivity]); fail).
+  - destruct Hw as [Hw|[Hw|[Hw|[Hw|Hw]]]]; try tauto.
+    + right; right; right; left. apply wake_thr_self. rewrite Hw. reflexivity.
+    + right; right; right; left. apply wake_thr_other; [exact Hw | rewrite Heqp; reflexivity].
+  - destruct Hw as [Hw|[Hw|[Hw|[Hw|Hw]]]]; try tauto.
+    + left. rewrite Hw. reflexivity.
+    + right; right; right; left. apply wake_thr_other; [exact Hw | rewrite Heqp; reflexivity].
+  - destruct Hw as [Hw|[Hw|[Hw|[Hw|Hw]]]]; try tauto.
+    right; right; right; left. destruct Hw as [t0 Ht0]. destruct (Nat.eq_dec t0 t) as [->|Hn].
+    + rewrite Heqp in Ht0. apply wake_thr_self. exact Ht0.
+    + exists t0. rewrite get_set_other; [exact Ht0|congruence].
+  - left. subst. apply is_nil_true in Heqb1.
+    destruct (pending s) as [|x r] eqn:Ep; [reflexivity|exfalso].
+    assert (Hx : In x (reg s)) by (apply (I_sub _ I); left; rewrite Ep; left; reflexivity).
+    assert (Hr : In x (rem e (reg s))).
+    { apply In_rem. split; [exact Hx|]. intros ->. destruct (I_ulocked _ I _ Heqp) as [Hp _].
+      apply Hp. rewrite Ep. left. reflexivity. }
+    rewrite Heqb1 in Hr. exact Hr.
+Qed.
+End Preservation.
+
+Lemma step_inv : forall s l s', Inv s -> step s l = Some s' -> Inv s'.
+Proof.
+  intros s l s' I H. constructor.
+  - eapply pres_wake; eauto.
+  - eapply pres_owed; eauto.
+  - eapply pres_batch; eauto.
+  - eapply pres_sub; eauto.
+  - eapply pres_begun; eauto.
+  - eapply pres_unreg; eauto.
+  - eapply pres_ulocked; eauto.
+  - eapply pres_count; eauto.
+  - eapply pres_lock; eauto.
+  - eapply pres_lock_rev; eauto.
+  - eapply pres_run_lock; eauto.
+  - eapply pres_ownidle; eauto.
+  - eapply pres_uown; eauto.
+  - eapply pres_blocked; eauto.
+Qed.
+
+Lemma init_inv : forall o r, Inv (init o r).
+Proof.
+  intros o r. constructor; unfold init, wake_ok, batch_ok; simpl; auto; try (intros; discriminate); try tauto.
+Qed.
+
+Lemma exec_inv : forall ls s s', Inv s -> exec s ls = Some s' -> Inv s'.
+Proof.
+  induction ls as [|l r IH]; simpl; intros s s' I H.
+  - injection H as <-. exact I.
+  - destruct (step s l) as [s1|] eqn:E; [|discriminate]. eapply IH; [eapply step_inv; eauto | exact H].
+Qed.
+
+Theorem reachable_inv : forall o r ls s, exec (init o r) ls = Some s -> Inv s.
+Proof. intros. eapply exec_inv; [apply init_inv | eassumption]. Qed.
+
+Lemma exec_app : forall l1 l2 s, exec s (l1 ++ l2) = match exec s l1 with Some s1 => exec s1 l2 | None => None end.
+Proof.
+  induction l1 as [|l r IH]; simpl; intros; [reflexivity|].
+  destruct (step s l); [apply IH | reflexivity].
+Qed.
+
+Lemma exec_own : forall ls s s', exec s ls = Some s' -> own s' = own s /\ raw s' = raw s.
+Proof.
+  induction ls as [|l r IH]; simpl; intros s s' H.
+  - injection H as <-. auto.
+  - destruct (step s l) as [s1|] eqn:E; [|discriminate].
+    destruct (step_own _ _ _ E) as [A B]. destruct (IH _ _ H) as [C D]. split; congruence.
+Qed.
+
+(* ---- the property lemmas ---- *)
+Definition all_between (s : state) : Prop := forall t, get t (thr s) = PIdle.
+Definition owner_blocked (s : state) : Prop := run s = RBlocked /\ kick s = 0.
+
+Lemma wakeup_invariant : forall o r ls s, exec (init o r) ls = Some s ->
+  (pending s <> [] ->
+     0 < kick s \/ local s = true \/
+     (exists t e, get t (thr s) = PLocked e true \/ get t (thr s) = PAtKick e true) \/
+     run s = RWoken) /\
+  (forall e, owed s e = true -> In e (pending s) \/ In e (batch s)).
+Proof.
+  intros o r ls s H. pose proof (reachable_inv _ _ _ _ H) as I. split.
+  - intros Hp. destruct (I_wake _ I) as [Hw|[Hw|[Hw|[[t Hw]|Hw]]]]; [congruence|tauto|tauto| |tauto].
+    right; right; left. exists t. destruct (get t (thr s)) as [| |e [|]|e [|]| | |]; simpl in Hw; try discriminate; eauto.
+  - exact (I_owed _ I).
+Qed.
+
+Lemma no_lost_post : forall o r ls s, exec (init o r) ls = Some s ->
+  owner_blocked s -> all_between s ->
+  pending s = [] /\ batch s = [] /\ (forall e, owed s e = false) /\ local s = false.
+Proof.
+  intros o r ls s H [Hb Hk] Ha. pose proof (reachable_inv _ _ _ _ H) as I.
+  assert (Hl : local s = false) by (apply (I_blocked _ I); exact Hb).
+  assert (Hbt : batch s = []) by (pose proof (I_batch _ I) as B; unfold batch_ok in B; rewrite Hb in B; exact B).
+  assert (Hp : pending s = []).
+  { destruct (I_wake _ I) as [Hw|[Hw|[Hw|[[t Hw]|Hw]]]]; auto; try lia; try congruence.
+    rewrite (Ha t) in Hw. discriminate. }
+  repeat split; auto.
+  intros e. destruct (owed s e) eqn:E; [|reflexivity].
+  destruct (I_owed _ I _ E) as [X|X]; [rewrite Hp in X | rewrite Hbt in X]; destruct X.
+Qed.
+
+Lemma no_over_delivery : forall o r ls s e, exec (init o r) ls = Some s ->
+  handler_starts s e <= posts_begun s e.
+Proof.
+  intros o r ls s e H. pose proof (I_count _ (reachable_inv _ _ _ _ H) e). lia.
+Qed.
+
+(* what a handler label needs *)
+Lemma handler_step : forall s t e s', step s (LHandler t e) = Some s' ->
+  t = own s /\ (exists last, run s = RToHandler e last) /\ lock s <> Some t /\ get t (thr s) = PIdle.
+Proof.
+  intros s t e s' H. unfold step in H. destruct (run s) eqn:Er; try discriminate.
+  destruct (Nat.eqb t (own s) && Nat.eqb e e0 && is_idle (get (own s) (thr s)) &&
+            negb match lock s with Some h => Nat.eqb h t | None => false end) eqn:C; [|discriminate].
+  apply andb_true_iff in C. destruct C as [C C4]. apply andb_true_iff in C. destruct C as [C C3].
+  apply andb_true_iff in C. destruct C as [C1 C2]. apply Nat.eqb_eq in C1, C2. apply is_idle_true in C3. subst.
+  repeat split; eauto.
+  intros Hl. rewrite Hl in C4. rewrite Nat.eqb_refl in C4. discriminate.
+Qed.
+
+Lemma handler_in_trace : forall pre t e post s0 s', exec s0 (pre ++ LHandler t e :: post) = Some s' ->
+  exists s, exec s0 pre = Some s /\ t = own s /\ (exists last, run s = RToHandler e last) /\
+            lock s <> Some t /\ get t (thr s) = PIdle.
+Proof.
+  intros pre t e post s0 s' H. rewrite exec_app in H. destruct (exec s0 pre) as [s|] eqn:E; [|discriminate].
+  cbn [exec] in H. destruct (step s (LHandler t e)) as [s1|] eqn:E1; [|discriminate].
+  exists s. split; [reflexivity|]. eapply handler_step; eauto.
+Qed.
+
+Lemma owner_only : forall ls s0 s', exec s0 ls = Some s' ->
+  Forall (fun l => match l with LHandler t _ => t = own s0 | _ => True end) ls.
+Proof.
+  induction ls as [|l r IH]; simpl; intros s0 s' H; [constructor|].
+  destruct (step s0 l) as [s1|] eqn:E; [|discriminate]. constructor.
+  - destruct l; auto. apply handler_step in E. tauto.
+  - destruct (step_own _ _ _ E) as [A _]. rewrite <- A. eapply IH; eauto.
+Qed.
+
+(* mutual exclusion on event_list_mutex (M1) *)
+Lemma lock_exclusive : forall o r ls s t u, exec (init o r) ls = Some s ->
+  locked_ppc (get t (thr s)) = true \/ (t = own s /\ get t (thr s) = PIdle /\ run_locked (run s) = true) ->
+  locked_ppc (get u (thr s)) = true \/ (u = own s /\ get u (thr s) = PIdle /\ run_locked (run s) = true) ->
+  t = u.
+Proof.
+  intros o r ls s t u H Ht Hu. pose proof (reachable_inv _ _ _ _ H) as I.
+  assert (A : lock s = Some t).
+  { destruct Ht as [Ht|[-> [_ Ht]]]; [apply (I_lock_rev _ I); exact Ht | apply (I_run_lock _ I); exact Ht]. }
+  assert (B : lock s = Some u).
+  { destruct Hu as [Hu|[-> [_ Hu]]]; [apply (I_lock_rev _ I); exact Hu | apply (I_run_lock _ I); exact Hu]. }
+  congruence.
+Qed.
+
+(* the meaning of the ghost counters: numbers of labels *)
+Fixpoint n_posts (e : nat) (ls : list label) : nat :=
+  match ls with
+  | [] => 0
+  | LPostBegin _ x :: r => (if Nat.eqb x e then 1 else 0) + n_posts e r
+  | _ :: r => n_posts e r
+  end.
+
+Fixpoint n_starts (e : nat) (ls : list label) : nat :=
+  match ls with
+  | [] => 0
+  | LHandler _ x :: r => (if Nat.eqb x e then 1 else 0) + n_starts e r
+  | _ :: r => n_starts e r
+  end.
+
+Lemma step_ghost : forall s l s' e, step s l = Some s' ->
+  posts_begun s' e = n_posts e [l] + posts_begun s e /\
+  handler_starts s' e = n_starts e [l] + handler_starts s e.
+Proof.
+  intros s l s' e H. destruct l; step_cases H; expand; unfold upd; cbv beta; simpl; auto.
+  all: eqs; auto; congruence.
+Qed.
+
+Lemma n_posts_app : forall e l1 l2, n_posts e (l1 ++ l2) = n_posts e l1 + n_posts e l2.
+Proof. induction l1 as [|l r IH]; simpl; intros; [reflexivity|]. destruct l; rewrite ?IH; lia. Qed.
+
+Lemma n_starts_app : forall e l1 l2, n_starts e (l1 ++ l2) = n_starts e l1 + n_starts e l2.
+Proof. induction l1 as [|l r IH]; simpl; intros; [reflexivity|]. destruct l; rewrite ?IH; lia. Qed.
+
+Lemma exec_ghost : forall ls s s' e, exec s ls = Some s' ->
+  posts_begun s' e = n_posts e ls + posts_begun s e /\
+  handler_starts s' e = n_starts e ls + handler_starts s e.
+Proof.
+  induction ls as [|l r IH]; intros s s' e H.
+  - simpl in H. injection H as <-. simpl. auto.
+  - cbn [exec] in H. destruct (step s l) as [s1|] eqn:E; [|discriminate].
+    destruct (step_ghost _ _ _ e E) as [A B]. destruct (IH _ _ e H) as [C D].
+    change (l :: r) with ([l] ++ r). rewrite n_posts_app, n_starts_app. lia.
+Qed.
+
+Lemma ghost_counts : forall o r ls s e, exec (init o r) ls = Some s ->
+  posts_begun s e = n_posts e ls /\ handler_starts s e = n_starts e ls.
+Proof. intros o r ls s e H. destruct (exec_ghost _ _ _ e H) as [A B]. simpl in A, B. lia. Qed.
+
+Lemma no_over_delivery_trace : forall o r ls s e, exec (init o r) ls = Some s -> n_starts e ls <= n_posts e ls.
+Proof.
+  intros o r ls s e H. destruct (ghost_counts _ _ _ _ e H) as [A B].
+  pose proof (no_over_delivery _ _ _ _ e H). lia.
+Qed.
+
+(* the end-of-run label: QUIESCENT is possible only with the owner blocked (nothing to wake it) or
+   returned from iv_main, and every thread outside iv_event_post / iv_event_unregister *)
+Lemma end_step : forall s q s', step s (LEnd q) = Some s' ->
+  s' = s /\ all_between s /\ ((q = true /\ owner_blocked s) \/ run s = RExited).
+Proof.
+  intros s q s' H. unfold step in H. destruct (all_idle (thr s)) eqn:Ea; [|discriminate].
+  assert (Hab : all_between s) by (intros t; apply all_idle_get; exact Ea).
+  destruct (run s) eqn:Er; try discriminate.
+  - destruct (q && Nat.eqb (kick s) 0) eqn:C; [|discriminate]. injection H as <-.
+    apply andb_true_iff in C. destruct C as [C1 C2]. apply Nat.eqb_eq in C2.
+    repeat split; auto. left. unfold owner_blocked. auto.
+  - injection H as <-. auto.
+Qed.
+
+Lemma quiescent_no_lost_post : forall o r ls q s, exec (init o r) (ls ++ [LEnd q]) = Some s ->
+  run s <> RExited ->
+  q = true /\ pending s = [] /\ batch s = [] /\ (forall e, owed s e = false).
+Proof.
+  intros o r ls q s H Hne. rewrite exec_app in H. destruct (exec (init o r) ls) as [s1|] eqn:E; [|discriminate].
+  cbn [exec] in H. destruct (step s1 (LEnd q)) as [s2|] eqn:E2; [|discriminate]. injection H as <-.
+  destruct (end_step _ _ _ E2) as [-> [Hab [[Hq Hb]|Hx]]]; [|congruence].
+  destruct (no_lost_post _ _ _ _ E Hb Hab) as [A [B [C _]]]. auto.
+Qed.
